@@ -334,6 +334,16 @@ def run(ctx: Ctx):
     nlp_ = ctx.func("bp", "_solve_node_lp")
     ctx.step(_need, "C17-O7", "R16 PAIRED-EFFECTS", nlp_, "a priced column joins the column list and the column set together, and the master is solved again before the node's value is reported", ["columns.append(new_col)\n        column_set.add(new_col)", "x_vals, duals, lp_obj = _solve_bounded_master_lp(columns, demands, col_bounds, eps)\n    return (x_vals, lp_obj, cg_iters, converged)"])
     _need(ctx, "C17-O7", "R1 STATUS-GUARD", bnp, "root of the search: an infeasible root LP is the only INFEASIBLE, an integral root LP is returned at once, otherwise the root is the first open node and the rounded root point the first incumbent", ["if lp_obj == float('inf'):\n        return Result(None, float('inf'), 0, total_cg_iters, Status.INFEASIBLE)", "frac_idx, frac_val = _most_fractional(x_vals, eps)\n    if frac_idx is None:\n        solution = _build_solution(x_vals, columns, eps)", "rounded = _round_solution(x_vals, columns, demands, eps)\n    if rounded is not None:\n        best_solution, best_obj = rounded", "heappush(tree, (lp_obj, counter, _BPNode(lp_obj, (), 0)))\n    counter += 1"], "without the root in the tree the loop never runs and the rounded point is labelled OPTIMAL")
+    bcfg_ = cfg_of(bnp.node)
+    cbs = [n for n in own_nodes(bnp.node) if isinstance(n, (ast.Assign, ast.AnnAssign)) and ast.unparse(n.targets[0] if isinstance(n, ast.Assign) else n.target) == "col_bounds"]
+    okcb = len(cbs) == 1 and isinstance(cbs[0].value, ast.DictComp) and "node.column_bounds" in ast.unparse(cbs[0].value) and bcfg_.node_of(cbs[0]).loop is not None
+    stores = [n for n in own_nodes(bnp.node) if isinstance(n, ast.Assign) and ast.unparse(n.targets[0]).startswith("col_bounds[")]
+    ctx.ob("C17-O7", "R33 NO-CROSS-CALL-STATE", bnp, "the bound map of a node is built afresh from that node's own branching decisions, inside the node loop", okcb and not stores, f"{[ast.unparse(x)[:50] for x in cbs + stores]}: a map that lives across iterations keeps the bounds of columns branched on in other subtrees; the node LP is then over-constrained, its value is no lower bound, and the subtree holding the optimum is pruned", node=(cbs + stores)[0] if cbs or stores else bnp.node)
+    gaps = [n for n in own_nodes(bnp.node) if isinstance(n, ast.Assign) and ast.unparse(n.targets[0]) == "gap"]
+    ctx.floor("gap computations in _branch_and_price", len(gaps), 1)
+    for g_ in gaps:
+        nm = names_in(g_.value)
+        ctx.ob("C17-O2", "R7 PROVENANCE", bnp, "the gap that licenses an early OPTIMAL is measured against the popped node's bound (nodes are popped in bound order, so it underestimates every open node)", "node" in nm and "lp_obj" not in nm and "node.bound" in ast.unparse(g_.value), f"`{ast.unparse(g_)[:80]}`: the node's own LP value is integral where an incumbent is found, so the gap is ~0 whatever is still open, and the first improving integral node is labelled OPTIMAL with a better plan in an open sibling", node=g_)
     sbp = ctx.func("bp", "solve_bp")
     _need(ctx, "C17-O7", "R14 GATE", sbp, "solve_bp: the empty plan is returned only when there is no demand; exactly one of the two modes is chosen from the arguments given", ["if m == 0:\n        return Result({}, 0.0, 0, 0, Status.OPTIMAL)", "if all((d == 0 for d in demands)):\n        return Result({}, 0.0, 0, 0, Status.OPTIMAL)", "cutting_stock = roll_width is not None and piece_sizes is not None\n    custom = pricing_fn is not None", "if cutting_stock and custom:\n        raise ValueError", "if not cutting_stock and (not custom):\n        raise ValueError", "if cutting_stock:"])
     for mod_, fn_ in (("bp", "_solve_bp_custom"), ("cg", "_solve_custom")):
@@ -416,6 +426,21 @@ def _v_root_integrality_gap_tol(tree):
         raise M.Skip("root integrality test not found")
 
 
+def _v_bound_map_hoisted(tree):
+    g = M.find_func(tree, "_branch_and_price")
+    wl = [n for n in ast.walk(g) if isinstance(n, ast.While) and M.src_has(n.test, "max_nodes")]
+    if not wl:
+        raise M.Skip("node loop not found")
+    if not M.replace_stmt(wl[0], lambda s: isinstance(s, ast.Assign) and M.src_is(s.targets[0], "col_bounds"), M.stmts("for idx, lo, hi in node.column_bounds:\n    col_bounds[idx] = (lo, hi)")):
+        raise M.Skip("bound map not found")
+    g.body.insert(g.body.index(wl[0]), M.stmts("col_bounds = {}")[0])
+
+
+def _v_gap_against_own_lp(tree):
+    g = M.find_func(tree, "_branch_and_price")
+    M.replace_expr(g, lambda e: M.src_is(e, "(best_obj - node.bound) / max(abs(best_obj), 1e-10)"), M.expr("(best_obj - lp_obj) / max(abs(best_obj), 1e-10)"))
+
+
 def _v_duplicate_initial_columns(tree):
     g = M.find_func(tree, "_solve_bp_custom")
     M.replace_expr(g, lambda e: M.src_is(e, "list(dict.fromkeys((tuple(c) for c in initial_columns)))"), M.expr("[tuple(c) for c in initial_columns]"))
@@ -491,6 +516,8 @@ def _t_reformat(tree):
 
 VARIANTS = [
     M.Variant("custom mode keeps duplicate initial columns (original defect)", BP, _v_duplicate_initial_columns, "C17-O3"),
+    M.Variant("the gap is measured against the node's own LP value (original defect)", BP, _v_gap_against_own_lp, "C17-O2"),
+    M.Variant("the per-node bound map is hoisted out of the node loop and never cleared (seed C17-L)", BP, _v_bound_map_hoisted, "C17-O7"),
     M.Variant("pricing DP skips an item when another of the same size is worth at least as much (seed C17-G)", PRI, _v_pricing_dominance_skip, "C17-O7"),
     M.Variant("root integrality test of branch-and-price uses gap_tol instead of eps (seed C17-H)", BP, _v_root_integrality_gap_tol, "C17-G8"),
     M.Variant("cg OPTIMAL without the convergence flag (original defect)", CG, _v_cg_no_flag, "C17-O2"),
